@@ -182,6 +182,108 @@ func HarnessC20(k, bannedMask int) {
 	verifrt.Cover("end", true)
 }
 
+// HarnessC20Run: a run of L reads, each for a slot of master X (k replicas, some banned) or of another
+// master Y, in a pattern chosen by the solver (for ALL patterns), with the random source chosen by the
+// solver (for SOME values): in every pattern that sends at least as many reads to X as X has healthy
+// replicas, every healthy replica of X can be the one that serves some read of the run. A selection
+// policy that is deterministic but fair (round robin per master) satisfies this as well; one whose
+// choice for X depends on the traffic for Y does not.
+func HarnessC20Run(k, bannedMask, L int) {
+	o := core.VerifDefaultOptions()
+	_, ls, sets := verifWorld3(o, k)
+	x, y := sets[1], sets[2]
+	for j, sl := range x.slaves {
+		if bannedMask&(1<<j) != 0 {
+			core.VerifBan(sl)
+		}
+	}
+	healthy := 0
+	for j := range x.slaves {
+		if bannedMask&(1<<j) == 0 {
+			healthy++
+		}
+	}
+	pattern := ""
+	nx := 0
+	served := map[string]bool{}
+	for i := 0; i < L; i++ {
+		r := &core.Msg{Type: codec.ReqGet}
+		if verifrt.Choice("read_for_master_X", 2) == 1 {
+			pattern += "X"
+			nx++
+			addr, _ := ls.route(r, int32(x.lo))
+			ok := addr == x.master
+			for j, sl := range x.slaves {
+				ok = ok || addr == sl
+				verifrt.Assert(addr != sl || bannedMask&(1<<j) == 0, "banned_replica_not_chosen")
+			}
+			verifrt.Assert(ok, "read_routed_inside_owner_set")
+			served[addr] = true
+		} else {
+			pattern += "Y"
+			addr, _ := ls.route(r, int32(y.lo))
+			ok := addr == y.master
+			for _, sl := range y.slaves {
+				ok = ok || addr == sl
+			}
+			verifrt.Assert(ok, "read_routed_inside_owner_set")
+		}
+		wr := &core.Msg{Type: codec.ReqSet}
+		waddr, _ := ls.route(wr, int32(x.lo))
+		verifrt.Assert(waddr == x.master, "write_goes_to_master")
+	}
+	if nx >= healthy && nx > 0 {
+		for j, sl := range x.slaves {
+			if bannedMask&(1<<j) == 0 {
+				g := "pattern_" + pattern + "_replica_" + sl
+				verifrt.Goal(g)
+				verifrt.Cover(g, served[sl])
+			}
+		}
+	}
+	verifrt.Cover("end", true)
+}
+
+// HarnessC20Monitor: the ban state over a history. A replica of X is healthy (its health probe
+// succeeds), then goes away - noticed by a failing connect on the request path (scn 0) or by two failing
+// health probes (scn 1) - and is banned; it comes back, time passes (less or more than the ban period),
+// the next health probe succeeds. From then on it is a healthy replica again: reads can reach it.
+func HarnessC20Monitor(scn int) {
+	o := core.VerifDefaultOptions()
+	w, ls, sets := verifWorld3(o, 2)
+	x := sets[1]
+	victim := x.slaves[0]
+	core.VerifProbeDown = map[string]bool{}
+	alive := core.VerifRunMonitor(victim, 1) // first probe: healthy
+	verifrt.Assert(!core.EngineGlobal.ProxyPool[victim].AutoBanFlag, "healthy_replica_not_banned")
+	switch scn {
+	case 0:
+		w.DialFail[victim] = true
+		_, _, _, addr := ls.getConn(&core.Msg{Type: codec.ReqGet}, int32(x.lo))
+		if addr != victim {
+			verifrt.Stop() // the read went elsewhere: not the history under study
+		}
+		verifrt.Assert(core.EngineGlobal.ProxyPool[victim].AutoBanFlag, "unreachable_replica_is_banned")
+		w.DialFail[victim] = false
+	case 1:
+		core.VerifProbeDown[victim] = true
+		if alive {
+			alive = core.VerifRunMonitor(victim, 1)
+		}
+		core.VerifProbeDown[victim] = false
+	}
+	wait := []int{100, 120000}[verifrt.Choice("time_passes", 2)]
+	verifrt.Sleep(wait)
+	if alive {
+		core.VerifRunMonitor(victim, 1) // the next probe: healthy again
+	}
+	g := "recovered_replica_serves_reads_after_" + vItoa(wait) + "ms"
+	verifrt.Goal(g)
+	addr, _ := ls.route(&core.Msg{Type: codec.ReqGet}, int32(x.lo))
+	verifrt.Cover(g, addr == victim)
+	verifrt.Cover("end", true)
+}
+
 // verifTopologyMixed: replica sets with different numbers of replicas (0, 1, 2) and an unowned gap.
 func verifWorldMixed(o *core.Options, sopts ...Option) (*core.VerifWorld, *listenServer, []vSet) {
 	ls := NewListenServer(sopts...)
@@ -437,5 +539,7 @@ func init() {
 	verifrt.Register("HarnessC04Topo", func(p []int64) { HarnessC04Topo(int(p[0]), int(p[1]), int(p[2]), int(p[3]), int(p[4])) })
 	verifrt.Register("HarnessC04Seq", func(p []int64) { HarnessC04Seq(int(p[0]), int(p[1])) })
 	verifrt.Register("HarnessC04", func(p []int64) { HarnessC04(int(p[0]), int(p[1]), int(p[2])) })
+	verifrt.Register("HarnessC20Run", func(p []int64) { HarnessC20Run(int(p[0]), int(p[1]), int(p[2])) })
+	verifrt.Register("HarnessC20Monitor", func(p []int64) { HarnessC20Monitor(int(p[0])) })
 	verifrt.Register("HarnessC20", func(p []int64) { HarnessC20(int(p[0]), int(p[1])) })
 }
